@@ -76,12 +76,17 @@ CLAIMS.update({
    design='4/C06'),
  'C11': dict(
    category='proof',
-   text='Deductive, exhaustive in position: for all 44 sizes matrix_iter_verbose (real get_bit) is executed on a valid symbol whose data/format/version '
-        'modules are symbolic bits; every yielded value equals, as a linear form in the module bit, the ISO type of its position (dark variant iff the module is dark), '
-        'quiet zone and scaling included; matrix_iter yields exactly the module values with a light quiet zone; refusal of bad scale/border. '
-        'One known finding: module (8, size-9) reported as format information. Colour-indexed rendering (PNG/SVG/PPM) and _make_colormap are not covered here.',
-   note='Trusted: pyvc (eager generators), spec/layout.py map, TYPE_* constants by documented name. Scale/border: a few concrete combinations per size (general scale/border arithmetic is C09).',
-   technique='contract-based deductive verification: concrete-control / symbolic-data execution (cc-sym) of the real classifier at every module of every size',
+   text='Deductive. (1) Classification, exhaustive in position: for all 44 sizes matrix_iter_verbose (real get_bit) is executed on a valid symbol whose data/format/version '
+        'modules are symbolic bits; every yielded value equals, as a linear form in the module bit, the ISO type of its position (dark variant iff the module is dark). '
+        '(2) Iteration kernel for ANY width, height, integer scale and border: loop contracts with a ghost row counter over lazy symbolic sequences prove for matrix_iter and '
+        'matrix_iter_verbose that the rows come in order, each module row scale times, each row has (width + 2 border) * scale entries, entry block p of row block q depicts '
+        'module (q - border, p - border) (light / quiet zone outside), the row count, and that exactly scale < 1 and negative border are refused. '
+        '(3) Colour map: the colorful() wrapper and _make_colormap are executed with opaque colour values for every version: each occurring module type gets its own option '
+        '(None kept) else dark / light, everything else is forwarded unchanged. One known finding: module (8, size-9) reported as format information. '
+        'BOUNDED (labelled): colour-indexed PNG / PPM / SVG documents of real symbols read back cell by cell.',
+   note='Trusted: pyvc (lazy sequence model of tuple(chain.from_iterable(repeat(x, n) for ...)), eager generators), spec/layout.py map, TYPE_* constants by documented name. '
+        'Float scales (truncation) and the use of the colour map inside the three writers are covered by concrete / bounded cases only.',
+   technique='contract-based deductive verification: cc-sym classification at every module of every size; loop contracts + ghost state for the iteration kernel (z3); ground obligations over opaque colours; bounded readers for rendering',
    design='4/C11'),
 })
 CLAIMS.update({
@@ -120,6 +125,10 @@ CLAIMS.update({
         'invalid or excluded combinations are always refused, accepted calls hand _encode a version in range, a level defined for it, a mask valid for the CHOSEN '
         'symbol kind, ECI only for QR; alternative spellings reach the stages with identical parameters; encode_sequence refusals and result counts on concrete '
         'contents with the stages summarised. The no-exception clauses of the stage contracts (C01/C03/C13/...) cover the library below _encode. '
+        'Colour strings: exhaustive over all ~4 million strings ['#'] c1..c6 of an adversarial alphabet (hex digits, non hex letter, signs, blank, underscore, non ASCII digit): accepted iff '
+        'hexadecimal RGB / RGBA / RRGGBB with the right channel values, else ValueError and nothing else; colour tuples of arbitrary integers (z3). '
+        'Colour strings: exhaustive over all ~4 million strings [#] c1..c6 of an adversarial alphabet (hex digits, non hex letter, signs, blank, underscore, non ASCII digit): accepted iff '
+        'hexadecimal RGB / RGBA / RRGGBB with the right channel values, else ValueError and nothing else; colour tuples of arbitrary integers (z3). '
         'BOUNDED (labelled): serialiser refusal of malformed colours / scales / borders / kinds for 12 formats and the command line exit status on enumerated arguments.',
    note='Trusted: pyvc + z3 and the contracts of find_version, prepare_data/make_segment, _encode used as summaries. Bounded clauses are enumerations of malformed values, not all values.',
    technique='contract-based deductive verification of the encoder entry points over enumerated option domains x symbolic content; bounded run-time contracts for serialiser arguments and CLI',
@@ -170,7 +179,8 @@ CLAIMS.update({
    category='proof',
    text='Deductive kernel: utils.matrix_to_lines is proved for a matrix with ANY number of rows of ANY width (symbolic) by loop invariants with a ghost cover '
         'count: every dark module is covered by exactly one yielded segment, no light module and nothing outside the row is covered, every segment is a '
-        'non-empty horizontal run on its row. BOUNDED (labelled, not counted): the SVG / EPS / PDF / PGF documents are read back by independent readers '
+        'non-empty horizontal run on its row. Colour values ("in the requested colour"): exhaustive lemmas over all 256 alpha values, all #RGB, every channel value of #RRGGBB / #RRGGBBAA, '
+        'all colour names against an independent SVG / CSS table, web colour of a tuple parses back; (r, g, b[, a]) tuples of ARBITRARY integers accepted iff 0..255 (z3). BOUNDED (labelled, not counted): the SVG / EPS / PDF / PGF documents are read back by independent readers '
         '(page box, scale transform, covered unit squares == dark modules, stroke / background colours, PDF /Length and xref offsets, XML well-formedness, title/desc escaping) '
         'on a seeded grid of symbols x integer and fractional scales x borders x colours x SVG options.',
    note='Trusted: pyvc + z3 for the kernel (precondition: first module of the symbol is dark); spec/readers_vector.py for the bounded document clauses; '
